@@ -11,6 +11,77 @@ use crate::world::Run;
 use biscuit_auth::Biscuit;
 
 impl<'a> Run<'a> {
+    /// the same re-declarations inside an authorizer snapshot (the other way a block reaches
+    /// the engine): the version of the token's last block is rewritten in the saved message
+    pub fn check_c16_snapshot(&mut self, idx: usize) {
+        use biscuit_auth::format::schema;
+        use prost::Message;
+        let slot = &self.slots[idx];
+        let n = slot.ghost.len();
+        let last = slot.ghost[n - 1].clone();
+        if last.external.is_some() {
+            return;
+        }
+        let root = self.scn.issuers[slot.issuer].key.keypair().public();
+        let min = versions::min_version(&last.ast, false);
+        let token = match Biscuit::from(&slot.bytes, root) {
+            Ok(t) => t,
+            Err(_) => return,
+        };
+        biscuit_auth::verif::install_clock(biscuit_auth::verif::ClockScript::default());
+        let base = match token.authorizer().ok().and_then(|a| a.to_raw_snapshot().ok()) {
+            Some(b) => b,
+            None => return,
+        };
+        let snap = match schema::AuthorizerSnapshot::decode(&base[..]) {
+            Ok(s) if s.world.blocks.len() == n => s,
+            _ => return,
+        };
+        for v in [None, Some(0u32), Some(1), Some(2), Some(3), Some(4), Some(5), Some(6), Some(7), Some(8)] {
+            let mut s = snap.clone();
+            s.world.blocks[n - 1].version = v;
+            let mut bytes = Vec::new();
+            if s.encode(&mut bytes).is_err() {
+                continue;
+            }
+            self.stats.bump("fault.byzantine_version_in_snapshot");
+            self.stats.oracle_evals += 1;
+            let declared = v.unwrap_or(0);
+            let must_refuse = !(3..=6).contains(&declared) || declared < min;
+            biscuit_auth::verif::install_clock(biscuit_auth::verif::ClockScript::default());
+            let outcome = biscuit_auth::Authorizer::from_raw_snapshot(&bytes).map(|_| ()).map_err(|e| format!("{e:?}"));
+            let ticks = biscuit_auth::verif::ticks();
+            match (&outcome, must_refuse) {
+                (Ok(()), true) => self.violate(
+                    "C16",
+                    "underdeclared-accepted",
+                    format!(
+                        "slot {idx} block {} inside an authorizer snapshot: declared version {:?} (block needs {min}) is accepted by Authorizer::from_raw_snapshot; block: {}",
+                        n - 1,
+                        v,
+                        last.ast.source().replace('\n', " ")
+                    ),
+                ),
+                (Err(e), false) => self.violate(
+                    "C16",
+                    "sufficient-version-refused",
+                    format!("slot {idx} block {} inside an authorizer snapshot: declared version {:?} (block needs {min}) is refused: {e}", n - 1, v),
+                ),
+                (Err(_), true) => {
+                    self.stats.bump("c16.underdeclared_refused_in_snapshot");
+                    if ticks != 0 {
+                        self.violate(
+                            "C16",
+                            "evaluated-before-refusal",
+                            format!("slot {idx} block {} inside a snapshot: declared version {:?} refused only after {ticks} units of evaluation work", n - 1, v),
+                        );
+                    }
+                }
+                (Ok(()), false) => self.stats.bump("c16.redeclared_accepted_in_snapshot"),
+            }
+        }
+    }
+
     pub fn check_c16_byzantine(&mut self, idx: usize) {
         let slot = &self.slots[idx];
         let n = slot.ghost.len();
